@@ -55,7 +55,9 @@ Run == st.status = "run" /\ st' = EStep(st)
 Report == /\ st.status \notin {"run", "reported"}
           /\ PrintT("RESULT " \o ToJson([case |-> Cases[st.c].name, status |-> st.status, tag |-> st.tag, why |-> st.why,
                                           asteps |-> st.a.steps, bsteps |-> st.b.steps, nout |-> Len(st.a.out),
-                                          res |-> st.a.result, bres |-> st.b.result]))
+                                          res |-> st.a.result, bres |-> st.b.result,
+                                          aout |-> IF st.status = "fail" THEN st.a.out ELSE <<>>,
+                                          bout |-> IF st.status = "fail" THEN st.b.out ELSE <<>>]))
           /\ st' = [st EXCEPT !.status = "reported"]
 Next == Run \/ Report
 Spec == Init /\ [][Next]_st
